@@ -487,6 +487,16 @@ def close_path(ck):
             if isinstance(st_, ast.Assign) and q.is_call(st_.value, "sys.exc_info"):
                 sysvars |= {p_ for p_ in q.assigned_paths(st_) if "." not in p_}
 
+        # locals that are (copies of) the exc_info argument: `x = exc_info` (e.g. a parameter bound by inlining)
+        heps = {hep}
+        grew = True
+        while grew:
+            grew = False
+            for st_ in q.walk_body(hf.node):
+                if isinstance(st_, ast.Assign) and isinstance(st_.value, ast.Name) and st_.value.id in heps and len(st_.targets) == 1 and isinstance(st_.targets[0], ast.Name) and st_.targets[0].id not in heps:
+                    heps.add(st_.targets[0].id)
+                    grew = True
+
         def tr3(n, val, errs=errs):
             kind, rec = val
             if n in errs:
@@ -495,12 +505,12 @@ def close_path(ck):
                 kind = "sys"
             return (kind, rec)
 
-        def edge3(n, k, val, hep=hep):
+        def edge3(n, k, val, heps=heps):
             kind, rec = val
             for t, pol in edge_facts(n, k, hgf):
-                if t == hep and kind == "?":
+                if t in heps and kind == "?":
                     kind = "given" if pol else "none"
-                elif t.startswith("isinstance(%s," % hep) and pol and kind == "given":
+                elif any(t.startswith("isinstance(%s," % h_) for h_ in heps) and pol and kind == "given":
                     kind = "exc"
                 elif t.startswith("any(") and kind == "sys":
                     kind = "sys-some" if pol else "sys-none"
@@ -513,7 +523,7 @@ def close_path(ck):
                 kinds.add((kind, rec))
         for n in errs:
             v = n.ast.value
-            ok = q.dotted(v) == hep or (isinstance(v, ast.Subscript) and q.dotted(v.value) in ({hep} | sysvars) and q.is_const(v.slice, 1))
+            ok = q.dotted(v) in heps or (isinstance(v, ast.Subscript) and q.dotted(v.value) in (heps | sysvars) and q.is_const(v.slice, 1))
             ck.ob("C13.error-recorded", hf, n.ast, ok, "self.error is the exception itself (exc_info, exc_info[1] or sys.exc_info()[1])")
     if hosts:
         ck.floor("C13.error-recorded", n_err, 2, "assignments to self.error on the close path")
